@@ -62,11 +62,15 @@ PreVals(r, kind) ==
   LET H == r.hs
       J == 1 .. Len(H)
       ok == PreGraphOk(r)
-      m == IF ok THEN SemMap(kind, r.n, r.l2v, r.g) ELSE EmptyMap
+      mt == kind = "mtbdd"
+      m == IF ~ok THEN EmptyMap
+           ELSE IF mt THEN MtSemMap(r.n, r.l2v, r.g, r.terms) ELSE SemMap(kind, r.n, r.l2v, r.g)
       idx == [s \in {H[j][1] : j \in J} |-> CHOOSE j \in J : H[j][1] = s]
   IN  [s \in DOMAIN idx |->
          [e |-> <<H[idx[s]][2], H[idx[s]][3]>>,
-          v |-> IF ok THEN EdgeSemM(kind, r.n, m, H[idx[s]][2], H[idx[s]][3]) ELSE {}]]
+          v |-> IF ~ok THEN {}
+                ELSE IF mt THEN MtEdge(r.n, m, r.terms, H[idx[s]][2])
+                ELSE EdgeSemM(kind, r.n, m, H[idx[s]][2], H[idx[s]][3])]]
 TrPre ==
   /\ Ev("pre")
   /\ st' = [kind |-> st.kind, n |-> Rec[l].n, l2v |-> Rec[l].l2v, names |-> Rec[l].names,
@@ -75,7 +79,9 @@ TrPre ==
   /\ ex' = Ex0
   /\ Step(<< O("C15", "pre.graph", PreGraphOk(Rec[l])),
              O("C02", "pre.eval", \A j \in 1 .. Len(Rec[l].hs) :
-                  Rec[l].n > 10 \/ SeqToSet(Rec[l].hs[j][4]) = vals'[Rec[l].hs[j][1]].v) >>)
+                  \/ Rec[l].n > 10
+                  \/ (IF st.kind = "mtbdd" THEN MtTable(Rec[l].n, Rec[l].hs[j][4])
+                       ELSE SeqToSet(Rec[l].hs[j][4])) = vals'[Rec[l].hs[j][1]].v) >>)
 
 ----------------------------------------------------------------------------
 (* export *)
@@ -141,8 +147,13 @@ ExportObs(r, x, nn) ==
   IF Cls(r) = "panic" THEN << O("C15", "export.nopanic" \o tg \o ":" \o r.res.pc, FALSE) >>
   ELSE
   << O("C15", "export.roots_known", x.known),
-     O("C15", "strict" \o vt,
-        StrictOutcomeOk(set.strict, st.names, set.dd, x.withN, x.rn, Cls(r) = "err", written)),
+     \* a needed replacement is reported / nothing else is
+     O("C15", "strict.reported" \o vt,
+        StrictOutcomeOk(set.strict, st.names, set.dd, x.withN, x.rn, Cls(r) = "err", written)
+        \/ Cls(r) = "err"),
+     O("C15", "strict.spurious" \o vt,
+        StrictOutcomeOk(set.strict, st.names, set.dd, x.withN, x.rn, Cls(r) = "err", written)
+        \/ Cls(r) # "err"),
      O("C15", "export.complete" \o tg, FileComplete(f)),
      O("C15", "header.version" \o vt, Strs(f, ".ver") = << "DDDMP-" \o set.ver >>),
      O("C15", "header.mode" \o tg, Strs(f, ".mode") = << x.mode >>),
@@ -271,9 +282,13 @@ FreshGraphOk(r) ==
   /\ \A i \in 1 .. Len(r.g) : r.g[i][2] \in 0 .. r.n - 1
   /\ \A j \in 1 .. Len(r.es) : r.es[j][1] < 0 \/ \E i \in 1 .. Len(r.g) : r.g[i][1] = r.es[j][1]
 GraphVals(kind, r) ==
-  LET m == SemMap(kind, r.n, r.l2v, r.g)
-  IN  [j \in 1 .. Len(r.es) |-> EdgeSemM(kind, r.n, m, r.es[j][1], r.es[j][2])]
-TtVals(r) == [j \in 1 .. Len(r.tts) |-> SeqToSet(r.tts[j])]
+  IF kind = "mtbdd"
+  THEN LET m == MtSemMap(r.n, r.l2v, r.g, r.terms)
+       IN  [j \in 1 .. Len(r.es) |-> MtEdge(r.n, m, r.terms, r.es[j][1])]
+  ELSE LET m == SemMap(kind, r.n, r.l2v, r.g)
+       IN  [j \in 1 .. Len(r.es) |-> EdgeSemM(kind, r.n, m, r.es[j][1], r.es[j][2])]
+TtVals(r) == [j \in 1 .. Len(r.tts) |->
+                IF st.kind = "mtbdd" THEN MtTable(r.n, r.tts[j]) ELSE SeqToSet(r.tts[j])]
 RootsInSnap(r) ==
   \A j \in 1 .. Len(r.es) : r.es[j][1] < 0 \/ \E i \in 1 .. Len(r.snap) : r.snap[i][1] = r.es[j][1]
 
